@@ -26,7 +26,7 @@ MOD_HEADER = ('#[allow(unused_imports)] use vstd::prelude::*;\n'
               '#[allow(unused_imports)] use crate::vspec::*;\n'
               '#[allow(unused_imports)] use crate::{ReadSpec, WriteSpec, BufReadSpec};\n'
               '#[allow(unused_imports)] use crate::{tz, advanced, is_suffix, cursor_pos, cursor_inner};\n'
-              'broadcast use {crate::ax::axiom_src_eq_refl, crate::ax::axiom_src_eq_trans, crate::ax::axiom_snk_eq_refl, crate::ax::axiom_snk_eq_trans, crate::ax::axiom_slice_u8_eq, crate::vspec::lemma_lens_eq, crate::vspec::lemma_seqs_eq, crate::vspec::lemma_lzs_eq};\n')
+              'broadcast use {crate::ax::axiom_src_eq_refl, crate::ax::axiom_src_eq_trans, crate::ax::axiom_snk_eq_refl, crate::ax::axiom_snk_eq_trans, crate::ax::axiom_slice_u8_eq, crate::vspec::lemma_skip_skip, crate::vspec::lemma_lens_eq, crate::vspec::lemma_seqs_eq, crate::vspec::lemma_lzs_eq};\n')
 
 
 class Seg:
